@@ -13,28 +13,32 @@ pub struct DecOut {
     /// bytes the decoder advanced the buffer by (Ok and Err alike)
     pub consumed: usize,
     pub panicked: bool,
+    /// Debug form of the error value, if the library returned Err
+    pub err: Option<String>,
 }
 
 fn decode_g<K: EnrKey>(buf: &[u8], deep: bool) -> DecOut {
     let r = guard("decode", || {
         let mut b = buf;
         let r = Enr::<K>::decode(&mut b);
-        (r.ok(), buf.len() - b.len())
+        (r.map_err(|e| format!("{e:?}")), buf.len() - b.len())
     });
     match r {
         None => DecOut {
             panicked: true,
             ..DecOut::default()
         },
-        Some((None, consumed)) => DecOut {
+        Some((Err(e), consumed)) => DecOut {
             view: None,
             consumed,
             panicked: false,
+            err: Some(e),
         },
-        Some((Some(e), consumed)) => DecOut {
+        Some((Ok(e), consumed)) => DecOut {
             view: Some(inspect(&e, deep)),
             consumed,
             panicked: false,
+            err: None,
         },
     }
 }
@@ -50,6 +54,7 @@ fn parse_g<K: EnrKey>(s: &str, deep: bool) -> DecOut {
             view: Some(inspect(&e, deep)),
             consumed: s.len(),
             panicked: false,
+            err: None,
         },
     }
 }
@@ -67,6 +72,7 @@ fn json_g<K: EnrKey>(s: &str, deep: bool) -> DecOut {
             view: Some(inspect(&e, deep)),
             consumed: s.len(),
             panicked: false,
+            err: None,
         },
     }
 }
